@@ -116,6 +116,7 @@ Definition relative_url_str (pre href post : str) (has_link dead_only : bool) (p
   else if dead_only then whole
   else if has_link && starts_with (s "http") href then whole
   else if negb has_link && negb (starts_with [slash] whole) then whole   (* plain text, not a path *)
+  else if has_link && negb (starts_with [slash] href) then whole          (* fragment, mailto:, relative link *)
   else
     let link_path := if has_link then normpath_str href else whole in
     let new_path := render_rel (relpath (split_path link_path) (parent (normalise (split_path page)))) in
